@@ -306,7 +306,11 @@ fn address_to_string(addr: &impl AddressTrait) -> String {
 }
 
 fn string_to_kind_and_id(s: &str) -> Result<(AddressKind, Id)> {
-    let (hrp, data) = bech32::decode(s).map_err(|_| Error::InvalidAddress(s.to_owned()))?;
+    // Addresses are bech32 (BIP-173) only: `bech32::decode` would also accept a bech32m checksum.
+    let parsed = bech32::primitives::decode::CheckedHrpstring::new::<bech32::Bech32>(s)
+        .map_err(|_| Error::InvalidAddress(s.to_owned()))?;
+    let hrp = parsed.hrp();
+    let data: Vec<u8> = parsed.byte_iter().collect();
 
     let kind = hrp.as_str().parse()?;
     let bytes = data[..]
